@@ -3,7 +3,7 @@ import cmd
 from functools import wraps
 from pyparsing.exceptions import ParseException
 from qbee.stmt import Block
-from qbee.exceptions import InternalError, SyntaxError
+from qbee.exceptions import InternalError, SyntaxError, CompileError
 from qbee import grammar
 from .module import QModule
 from .machine import QvmMachine
@@ -530,8 +530,11 @@ Type help or ? to list commands.
         tree.bind(self.eval_context)
         try:
             value = tree.eval()
-        except EvalError as e:
-            print('Eval error:', e)
+        except (EvalError, InternalError, CompileError, ArithmeticError,
+                ValueError) as e:
+            # unknown names, bad subscripts, division by zero, overflow,
+            # constructs the evaluator does not support, ...
+            print('Eval error:', str(e) or type(e).__name__)
             return
 
         print(value)
